@@ -879,6 +879,16 @@ Definition settle (n : node) (ds : dials) : node * list output * dials :=
 Definition settle' (n : node) (ds : dials) : node * list output :=
   let '(n1, o1, _) := settle n ds in (n1, o1).
 
+(* Output queued by an APPLICATION thread (send_answer / send_request) while the I/O thread sleeps in select(): the
+   wake-up that the writer thread triggers finds a write list that was built before the output existed, so that
+   iteration only checks timers and reconnects (at the current time); the output is written by the following one. *)
+Definition settle_app (n : node) (ds : dials) : node * list output * dials :=
+  let '(n1, o1, ds') := io_iteration n ds in
+  let '(n2, o2) := flush n1 in
+  (n2, (o1 ++ o2)%list, ds').
+Definition settle_app' (n : node) (ds : dials) : node * list output :=
+  let '(n1, o1, _) := settle_app n ds in (n1, o1).
+
 (* `ds` scripts the outcome (and the hop-by-hop start value) of every connect() the node makes
    while reacting to the event *)
 Definition step (n : node) (ds : dials) (e : event) : node * list output :=
@@ -963,7 +973,7 @@ Definition step (n : node) (ds : dials) (e : event) : node * list output :=
       | (None, n1) => (n1, [ONotRoutable])
       | (Some cid, n1) =>
           let '(n2, o2) := send_message n1 cid m in
-          let '(n3, o3) := settle' n2 ds in (n3, (o2 ++ o3)%list)
+          let '(n3, o3) := settle_app' n2 ds in (n3, (o2 ++ o3)%list)
       end
   | EAppRequest i m realm pick timeout =>
       (* end-to-end id: from the node's generator unless the caller set one *)
@@ -994,7 +1004,7 @@ Definition step (n : node) (ds : dials) (e : event) : node * list output :=
                                             (n_peer_waiting n1) (n_origin_waiting n1) (n_sent_answers n1) in
                       let n3 := set_apps n2 (upd_app (n_apps n2) i (fun a => set_awaiting a (a_waiting a ++ [(hbh, n_now n2 + timeout)])%list)) in
                       let '(n4, o4) := send_message n3 cid m' in
-                      let '(n5, o5) := settle' n4 ds in (n5, (o4 ++ o5)%list)
+                      let '(n5, o5) := settle_app' n4 ds in (n5, (o4 ++ o5)%list)
                   end
               end
           end
